@@ -231,42 +231,7 @@ def r19_4(ctx):
     rep.analysed(cc)
     sites = _raise_sites(cc)
 
-    def has(pred):
-        return [s for s in sites if pred(s)]
-
-    def cond_has(text, pol=None):
-        def p(site):
-            return any(text in t and (pol is None or pl == pol) for t, pl in site[2])
-        return p
-    classes = [
-        ("ts-not-strictly-increasing", cond_has("is_strictly_increasing(ts)", False)),
-        ("ts-not-floats", cond_has("isinstance(ts, (tuple, list))")),
-        ("y0-not-tensor", cond_has("torch.is_tensor(y0)", False)),
-        ("y0-not-2d", cond_has("y0.dim() != 2", True)),
-        ("bm-rank", cond_has("len(bm.shape) != 2", True)),
-        ("batch-sizes-inconsistent", lambda s: any("batch_sizes[1:]" in l for l in s[3]) and
-         any("!= batch_sizes[0]" in t and p for t, p in s[2])),
-        ("state-sizes-inconsistent", lambda s: any("state_sizes[1:]" in l for l in s[3]) and
-         any("!= state_sizes[0]" in t and p for t, p in s[2])),
-        ("noise-sizes-inconsistent", lambda s: any("noise_sizes[1:]" in l for l in s[3]) and
-         any("!= noise_sizes[0]" in t and p for t, p in s[2])),
-        ("scalar-noise-channels", lambda s: any("NOISE_TYPES.scalar" in t and p for t, p in s[2]) and
-         any("noise_sizes[0] != 1" in t and p for t, p in s[2])),
-        ("missing-drift", cond_has("has_f", False)),
-        ("missing-diffusion", cond_has("has_g", False)),
-        ("no-noise_type", cond_has("hasattr(sde, 'noise_type')", False)),
-        ("bad-noise_type", cond_has("sde.noise_type not in NOISE_TYPES", True)),
-        ("no-sde_type", cond_has("hasattr(sde, 'sde_type')", False)),
-        ("bad-sde_type", cond_has("sde.sde_type not in SDE_TYPES", True)),
-        ("unknown-method", cond_has("method not in METHODS", True)),
-        ("drift-shape", lambda s: s[0].name == "_check_2d" and any("len(shape) != 2" in t and p for t, p in s[2])),
-        ("diffusion-shape", lambda s: s[0].name == "_check_2d_or_3d" and any("len(shape) != 3" in t and p for t, p in s[2])),
-    ]
-    for name, pred in classes:
-        hits = has(pred)
-        rep.check(bool(hits), "R19.4", astq.loc(cc), f"{cc.key}::R19.4::{name}",
-                  f"no `raise` in check_contract is guarded by the test for `{name}`: this class of malformed argument "
-                  f"is no longer rejected up-front", f"guarded at line(s) {[h[1].lineno for h in hits]}")
+    # (the per-class guards themselves are decided semantically by R19.7; here only the bookkeeping they rely on)
     # sizes are collected from every relevant shape
     appends = {}
     for f in [cc] + list(cc.nested.values()):
@@ -324,7 +289,7 @@ def r19_4(ctx):
     ok = len(raises) == 1 and any("requires_grad" in ast.unparse(c) and p for c, p, _ in astq.path_conditions(ang, raises[0]))
     rep.check(ok, "R19.4", astq.loc(ang), f"{ang.key}::R19.4::raises-on-grad",
               "assert_no_grad does not raise exactly when a tensor argument requires grad", "raises when requires_grad")
-    ctx.floor("R19.4", 25)
+    ctx.floor("R19.4", 8)
 
 
 class _CCHooks(solvers.QuietHooks):
@@ -518,3 +483,191 @@ def run(ctx):
     ctx.guard(r19_4)
     ctx.guard(r19_5)
     ctx.guard(r19_6)
+
+
+# ------------------------------------------------------------------------------------------------ R19.7
+class TObj(Obj):
+    """Abstract tensor that only knows its shape (for the validation code, which only looks at shapes)."""
+
+    def __init__(self, shape, name="tensor", requires_grad=False):
+        super().__init__(name)
+        self.shape = tuple(Fraction(s) for s in shape)
+        sh = self.shape
+        self.attrs.update({
+            "dim": Intrinsic("dim", lambda it, a, k, n, f: Fraction(len(sh))),
+            "size": Intrinsic("size", lambda it, a, k, n, f: _size(sh, a, n, f)),
+            "shape": sh, "ndim": Fraction(len(sh)), "dtype": "dtype", "device": "device", "requires_grad": requires_grad,
+            "ndimension": Intrinsic("ndimension", lambda it, a, k, n, f: Fraction(len(sh))),
+            "numel": Intrinsic("numel", lambda it, a, k, n, f: Fraction(__import__("math").prod(int(x) for x in sh))),
+            "new_zeros": Intrinsic("new_zeros", lambda it, a, k, n, f: TObj(k.get("size", a[0] if a else ()), "zeros")),
+        })
+
+
+def _size(sh, a, node, fi):
+    if not a:
+        return sh
+    i = int(a[0])
+    if not -len(sh) <= i < len(sh):
+        raise SimRaise("IndexError", f"Dimension out of range (size({i}) of a {len(sh)}-d tensor)", node, fi)
+    return sh[i]
+
+
+class ContractHooks(solvers.QuietHooks):
+    def __init__(self):
+        self.default_bm = []
+
+    def external_call(self, interp, dotted, args, kwargs, node, fi):
+        if dotted == "torch.is_tensor":
+            return isinstance(args[0], TObj)
+        if dotted == "torch.cat":
+            parts = list(args[0])
+            dim = int(kwargs.get("dim", args[1] if len(args) > 1 else 0))
+            sh = list(parts[0].shape)
+            sh[dim] = sum(p.shape[dim] for p in parts)
+            return TObj(sh, "cat")
+        if dotted == "torch.randn":
+            return TObj([a for a in args if isinstance(a, Fraction)], "randn")
+        if dotted == "torch.tensor":
+            return args[0]
+        if dotted == "warnings.warn":
+            return None
+        return solvers.QuietHooks.external_call(self, interp, dotted, args, kwargs, node, fi)
+
+    def on_call(self, interp, callee, args, kwargs, node, fi):
+        from ..interp import BoundMethod
+        if isinstance(callee, ClassRef) and callee.cls.name == "BrownianInterval":
+            self.default_bm.append(dict(kwargs))
+            return Obj("default-bm", attrs={"levy_area_approximation": kwargs.get("levy_area_approximation"),
+                                            "shape": kwargs.get("size")})
+        if isinstance(callee, BoundMethod) and callee.fi.cls is not None and callee.fi.cls.name == "SDELogqp" \
+                and callee.fi.name != "__init__":
+            # shape semantics of the logqp wrapper (its values are C18's business): one extra state channel
+            y = args[1]
+            base = callee.self_obj.attrs.get("_base_sde")
+            gsh = interp.call(base.attrs["g"], [args[0], y], {}).shape
+            fsh = (y.shape[0], y.shape[1])
+            g_aug = (gsh[0], gsh[1] + 1) + tuple(gsh[2:])
+            nm = callee.fi.name
+            if nm.startswith("f_and_g"):
+                return (TObj(fsh, "logqp-f"), TObj(g_aug, "logqp-g"))
+            if nm.startswith("f_"):
+                return TObj(fsh, "logqp-f")
+            if nm.startswith("g_"):
+                return TObj(g_aug, "logqp-g")
+        return NotImplemented
+
+
+def make_user_sde(noise_type="diagonal", sde_type="ito", B=4, d=3, m=3, methods=("f", "g"), f_shape=None, g_shape=None,
+                  drop_attrs=()):
+    if noise_type == "diagonal":
+        gs = (B, d)
+    else:
+        gs = (B, d, m)
+    fs = f_shape or (B, d)
+    gs = g_shape or gs
+    attrs = {"noise_type": noise_type, "sde_type": sde_type}
+    table = {
+        "f": lambda it, a, k, n, f: TObj(fs, "f-out"),
+        "g": lambda it, a, k, n, f: TObj(gs, "g-out"),
+        "h": lambda it, a, k, n, f: TObj(fs, "h-out"),
+        "f_and_g": lambda it, a, k, n, f: (TObj(fs, "f-out"), TObj(gs, "g-out")),
+        "g_prod": lambda it, a, k, n, f: TObj(fs, "gprod-out"),
+        "f_and_g_prod": lambda it, a, k, n, f: (TObj(fs, "f-out"), TObj(fs, "gprod-out")),
+    }
+    for name in methods:
+        attrs[name] = Intrinsic(f"user.{name}", table[name])
+    for a in drop_attrs:
+        attrs.pop(a, None)
+    return Obj("user-sde", attrs=attrs)
+
+
+def eval_check_contract(model, sde=None, y0=None, ts=None, bm="given", method=None, adaptive=False, options=None,
+                        names=None, logqp=False, m=3, B=4):
+    cc = model.func(SDEINT, "check_contract")
+    hooks = ContractHooks()
+    it = Interp(model, hooks)
+    sde = sde or make_user_sde()
+    y0 = TObj((4, 3), "y0") if y0 is None else y0
+    ts = [Fraction(0), Fraction(1, 2), Fraction(1)] if ts is None else ts
+    if bm == "given":
+        bm = Obj("bm", attrs={"shape": (Fraction(B), Fraction(m)), "levy_area_approximation": "space-time"})
+    try:
+        out = it.call_function(cc, [sde, y0, ts, bm, method, adaptive, options, names, logqp], {})
+        return ("ok", out, hooks)
+    except SimRaise as e:
+        return ("raise", e.exc_name, e.message)
+
+
+def r19_7(ctx):
+    rep, model = ctx.rep, ctx.model
+    rep.rule("R19.7", "check_contract evaluated abstractly on shape-only tensors: well-formed inputs pass; every class of "
+                      "malformed argument raises ValueError")
+    cc = model.func(SDEINT, "check_contract")
+    rep.analysed(cc)
+    good = [
+        ("diagonal f,g", dict()),
+        ("general f,g", dict(sde=make_user_sde("general"))),
+        ("scalar f,g, one channel", dict(sde=make_user_sde("scalar", m=1), m=1)),
+        ("additive f_and_g", dict(sde=make_user_sde("additive", methods=("f_and_g",)))),
+        ("general f, g_prod with bm", dict(sde=make_user_sde("general", methods=("f", "g_prod")))),
+        ("f_and_g_prod with bm", dict(sde=make_user_sde("general", methods=("f_and_g_prod",)))),
+        ("bm None", dict(bm=None)),
+        ("ts tuple", dict(ts=(Fraction(0), Fraction(1)))),
+        ("stratonovich", dict(sde=make_user_sde("diagonal", "stratonovich"))),
+        ("logqp, default bm", dict(sde=make_user_sde("diagonal", methods=("f", "g", "h")), logqp=True, bm=None)),
+        ("logqp, general noise, bm given", dict(sde=make_user_sde("general", methods=("f", "g", "h")), logqp=True)),
+        ("explicit method", dict(method="euler")),
+    ]
+    for name, kw in good:
+        r = eval_check_contract(model, **kw)
+        rep.check(r[0] == "ok", "R19.7", astq.loc(cc), f"{cc.key}::R19.7::accepts::{name}",
+                  f"well-formed arguments ({name}) are rejected with {r[1:] if r[0] != 'ok' else ''}",
+                  "accepted")
+    bad = [
+        ("ts not strictly increasing (repeated time)", dict(ts=[Fraction(0), Fraction(1), Fraction(1)])),
+        ("ts decreasing", dict(ts=[Fraction(1), Fraction(0)])),
+        ("ts decreasing in the middle", dict(ts=[Fraction(0), Fraction(2), Fraction(1), Fraction(3)])),
+        ("ts a string", dict(ts="0,1")),
+        ("ts list of strings", dict(ts=["a", "b"])),
+        ("y0 not a tensor", dict(y0=Fraction(1))),
+        ("y0 one-dimensional", dict(y0=TObj((4,), "y0"))),
+        ("y0 three-dimensional", dict(y0=TObj((4, 3, 1), "y0"))),
+        ("bm of rank 1", dict(bm=Obj("bm", attrs={"shape": (Fraction(4),), "levy_area_approximation": "none"}))),
+        ("bm of rank 3", dict(bm=Obj("bm", attrs={"shape": (Fraction(4), Fraction(3), Fraction(1)), "levy_area_approximation": "none"}))),
+        ("bm batch size differs from y0", dict(B=5)),
+        ("drift batch size differs", dict(sde=make_user_sde(f_shape=(5, 3)))),
+        ("drift state size differs", dict(sde=make_user_sde(f_shape=(4, 2)))),
+        ("drift of rank 3", dict(sde=make_user_sde(f_shape=(4, 3, 1)))),
+        ("diagonal diffusion of rank 3", dict(sde=make_user_sde(g_shape=(4, 3, 3)))),
+        ("general diffusion of rank 2", dict(sde=make_user_sde("general", g_shape=(4, 3)))),
+        ("diffusion state size differs", dict(sde=make_user_sde("general", g_shape=(4, 2, 3)))),
+        ("diffusion noise size differs from bm", dict(sde=make_user_sde("general", g_shape=(4, 3, 2)))),
+        ("diagonal noise size differs from bm", dict(m=2)),
+        ("scalar noise with two channels", dict(sde=make_user_sde("scalar", g_shape=(4, 3, 2)), m=2)),
+        ("no drift", dict(sde=make_user_sde(methods=("g",)))),
+        ("no diffusion", dict(sde=make_user_sde(methods=("f",)))),
+        ("no methods at all", dict(sde=make_user_sde(methods=()))),
+        ("g_prod only, no bm: noise size unknown", dict(sde=make_user_sde("general", methods=("f", "g_prod")), bm=None)),
+        ("unknown noise_type", dict(sde=make_user_sde("diagonal", drop_attrs=()).__class__("user", attrs={"noise_type": "weird", "sde_type": "ito"}))),
+        ("unknown sde_type", dict(sde=Obj("user", attrs={"noise_type": "diagonal", "sde_type": "weird"}))),
+        ("missing noise_type", dict(sde=Obj("user", attrs={"sde_type": "ito"}))),
+        ("missing sde_type", dict(sde=Obj("user", attrs={"noise_type": "diagonal"}))),
+        ("unknown method", dict(method="runge")),
+        ("logqp without prior drift", dict(sde=make_user_sde(methods=("f", "g")), logqp=True)),
+    ]
+    for name, kw in bad:
+        r = eval_check_contract(model, **kw)
+        ok = r[0] == "raise" and r[1] == "ValueError"
+        rep.check(ok, "R19.7", astq.loc(cc), f"{cc.key}::R19.7::rejects::{name}",
+                  f"malformed argument ({name}) is " + ("accepted: nothing rejects it before integration" if r[0] == "ok"
+                                                        else f"rejected with {r[1]} instead of ValueError: {r[2][:80]}"),
+                  "raises ValueError")
+    ctx.floor("R19.7", 35)
+
+
+_old_run = run
+
+
+def run(ctx):
+    _old_run(ctx)
+    ctx.guard(r19_7)
